@@ -1,30 +1,33 @@
 (* C15 — Changing the data model never loses data and a refused change changes nothing.
    Property theorems only: statement, exact, Print Assumptions.
    Model: model/DataModel.v (parse_internal, insert, add_field/insert_field, update_system, update,
-   update_with, Entity::update; hash-map iteration orders = the oracle argument `o`, every theorem
-   quantifies over all oracles).  Proofs: proofs/DataModelP.v, proofs/C15P.v.
+   update_with = apply_update on a clone + swap, Entity::update; hash-map iteration orders = the
+   oracle argument `o`, every theorem quantifies over all oracles).
+   Proofs: proofs/DataModelP.v, proofs/DataModelAgainP.v, proofs/C15P.v.
    Functions of run/Run_C15.v used below are the ones the harness evaluates on every case:
-   run_steps (what run_C15 prints), stable_b / wf_b / newfields_b (clauses of spec_C15),
-   known_steps / k1_step / in_loop_err (known_C15). *)
-From DV Require Import DataModel Run_C15 DataModelP C15P.
+   run_steps / upd (what run_C15 prints), stable_b / wf_b / newfields_b (clauses of spec_C15).
+   The three defects this check found on the original tree (K1, K2, K3) are repaired in /repo
+   (a0ddb65, c4c0a2e, 332422f); the statements below are the full-strength ones, their former
+   refutation witnesses are kept as regression examples at the end. *)
+From DV Require Import DataModel Run_C15 DataModelP DataModelAgainP C15P.
 Local Open Scope N_scope.
 
-(* What the whole property would need and only partly is a statement about a model: rows written
-   before stay readable with the same values (needs the query evaluator and SQLite: observed on
-   real instances by the harness, proved below only for readers that address values by storage
-   identifier), identifiers depend only on the accepted versions, a refused version changes
-   nothing, the same model again changes nothing. *)
+(* The part of the property that is a statement about the model, for every history of
+   update_system / update calls from the empty model and all iteration orders os1, os2 of the
+   hash maps: addresses of existing data are kept, identifiers never change or collide, a refused
+   version changes nothing, acceptance and the resulting models (identifiers included) do not
+   depend on the iteration orders. What it leaves out: that rows read back through the real query
+   evaluator / SQLite are the same (observed on real instances by the harness; proved below for
+   readers that address values by storage identifier). *)
 Definition C15_full : Prop :=
   forall steps os1 os2,
     let h := run_steps empty_model steps os1 in
     chain addresses_kept empty_model h /\ hist_ok empty_model h /\ refused_unchanged empty_model h
-    /\ run_steps empty_model steps os2 = h.
+    /\ map outcome (run_steps empty_model steps os2) = map outcome h.
 
-(* (1) identifiers never change or collide: for EVERY history of update_system / update calls from
-   the empty model, every verdict (accepted, refused, refused half-way) and every iteration order:
-   each namespace, entity and field that existed keeps name, storage identifier and type
-   (stable_b), no two share an identifier (wf_b), and a field added to an existing entity is
-   nullable, has a default or is a reference (newfields_b). *)
+(* (1) identifiers never change or collide: each namespace, entity and field that existed keeps
+   name, storage identifier and type (stable_b), no two share an identifier (wf_b), a field added
+   to an existing entity is nullable, has a default or is a reference (newfields_b) *)
 Theorem C15_stable_holds : forall steps os, hist_ok empty_model (run_steps empty_model steps os).
 Proof. exact ids_stable_all_histories. Qed.
 Print Assumptions C15_stable_holds.
@@ -49,91 +52,75 @@ Theorem C15_readable_reader_partial : forall (store : Type) (read_at : eshort * 
 Proof. exact read_stable. Qed.
 Print Assumptions C15_readable_reader_partial.
 
-(* (3) identifiers depend only on the accepted versions: REFUTED (K1). Two peers accept the same
-   two versions (the second adds f2, f3 to an existing entity) and hold different identifiers;
-   the peer whose hash map did not follow the text then refuses the same text again
-   (InvalidFieldOrdering): a restart with an unchanged model fails. *)
-Theorem C15_deterministic_refuted :
-  let a := run_steps empty_model w_steps (map oracle_of [w_none; w_text_order; w_none]) in
-  let b := run_steps empty_model w_steps (map oracle_of [w_none; w_other_order; w_none]) in
-  map fst (firstn 2 a) = [None; None] /\ map fst (firstn 2 b) = [None; None]
-  /\ map snd (firstn 2 a) <> map snd (firstn 2 b)
-  /\ map fst a = [None; None; None] /\ map fst b = [None; None; Some EFieldOrdering].
-Proof. exact k1_witness. Qed.
-Print Assumptions C15_deterministic_refuted.
+(* (3) identifiers depend only on the versions applied: whatever the iteration orders of two peers,
+   they accept the same versions and hold the same models — identifiers, flags, indexes, text —
+   after every step of every history *)
+Theorem C15_deterministic_holds : forall steps os1 os2 M,
+  map outcome (run_steps M steps os1) = map outcome (run_steps M steps os2).
+Proof. exact run_steps_outcome_det. Qed.
+Print Assumptions C15_deterministic_holds.
 
-(* ... and holds outside the known classes: a history in which no version gives an existing entity
-   two or more new fields at once (K1) and none is refused from inside the in-place loops (K2)
-   yields the same verdicts and the same models under all iteration orders. *)
-Theorem C15_deterministic_outside_known : forall steps os1 os2 M,
-  known_steps M steps os1 = (false, false) -> run_steps M steps os2 = run_steps M steps os1.
-Proof. exact run_steps_det. Qed.
-Print Assumptions C15_deterministic_outside_known.
-
-(* one accepted step, outside K1 *)
-Theorem C15_deterministic_step : forall o1 o2 sys M v, k1_step M (mkS sys v) = false ->
-  snd (upd o1 sys M v) = None -> upd o2 sys M v = upd o1 sys M v.
-Proof. exact upd_det. Qed.
+Theorem C15_deterministic_step : forall o1 o2 sys M v,
+  is_none (snd (upd o1 sys M v)) = is_none (snd (upd o2 sys M v)) /\ fst (upd o1 sys M v) = fst (upd o2 sys M v).
+Proof. exact upd_outcome_det. Qed.
 Print Assumptions C15_deterministic_step.
 
-(* (4) a refused version changes nothing: REFUTED (K2). A version valid for E1 and invalid for E2
-   is refused (MissingField) and E1 has gained its new field when the hash map visits E1 first. *)
-Theorem C15_refused_refuted :
-  let M := fst (upd zero_oracle false empty_model w_w1) in
-  snd (upd zero_oracle false empty_model w_w1) = None /\
-  snd (upd (oracle_of w_e1_first) false M w_w2) = Some EMissingField /\ fst (upd (oracle_of w_e1_first) false M w_w2) <> M /\
-  snd (upd (oracle_of w_e2_first) false M w_w2) = Some EMissingField /\ fst (upd (oracle_of w_e2_first) false M w_w2) = M.
-Proof. exact k2_witness. Qed.
-Print Assumptions C15_refused_refuted.
+(* (4) a refused version changes nothing, whatever it is refused for and wherever the in-place
+   loops of apply_update had got to *)
+Theorem C15_refused_holds : forall o sys M v e, snd (upd o sys M v) = Some e -> fst (upd o sys M v) = M.
+Proof. exact refused_changes_nothing. Qed.
+Print Assumptions C15_refused_holds.
 
-(* ... and holds outside the known class: a version refused for its text (syntax, duplicates,
-   unknown entity, index) or for the namespace rule leaves the model untouched, under every order *)
-Theorem C15_refused_outside_known : forall o sys M v e,
-  snd (upd o sys M v) = Some e -> in_loop_err (Some e) = false -> fst (upd o sys M v) = M.
-Proof. exact refused_outside_loops_changes_nothing. Qed.
-Print Assumptions C15_refused_outside_known.
-
-Theorem C15_refused_histories_outside_known : forall steps os M,
-  snd (known_steps M steps os) = false -> refused_unchanged M (run_steps M steps os).
+Theorem C15_refused_histories_hold : forall steps os M, refused_unchanged M (run_steps M steps os).
 Proof. exact run_steps_refused_unchanged. Qed.
-Print Assumptions C15_refused_histories_outside_known.
+Print Assumptions C15_refused_histories_hold.
 
-(* even a half-applied refused version keeps the model free of collisions (a step of C15_stable_holds) *)
-Theorem C15_halfway_keeps_ids : forall o sys M v, wf_model (m_nss M) ->
-  keeps_ids M (fst (upd o sys M v)) /\ wf_model (m_nss (fst (upd o sys M v))).
-Proof. exact upd_keeps_ids. Qed.
-Print Assumptions C15_halfway_keeps_ids.
-
-(* (5) the same model again (what every restart does) changes nothing: REFUTED by the third step of
-   C15_deterministic_refuted (K1); outside K1 it holds under every iteration order: a version that
-   was accepted and gave no existing entity more than one new field is accepted again, and the
-   model — identifiers, flags, indexes, text — stays exactly as it is *)
-Theorem C15_restart_outside_known : forall o o' sys M v, wf_model (m_nss M) -> k1_step M (mkS sys v) = false ->
-  snd (upd o sys M v) = None -> upd o' sys (fst (upd o sys M v)) v = (fst (upd o sys M v), None).
+(* (5) the same model again (what every restart does) changes nothing: an accepted version —
+   with any number of new namespaces, entities and fields — applied again under any iteration
+   order is accepted, and the model stays exactly as it is (the new fields, inserted in the order
+   of the text, got the identifiers the text gives them: pigeonhole on position-based identifiers) *)
+Theorem C15_restart_holds : forall o o' sys M v, wf_model (m_nss M) -> snd (upd o sys M v) = None ->
+  upd o' sys (fst (upd o sys M v)) v = (fst (upd o sys M v), None).
 Proof. exact upd_again. Qed.
-Print Assumptions C15_restart_outside_known.
+Print Assumptions C15_restart_holds.
 
-(* (its hypothesis wf_model holds for every model a history reaches) *)
+(* (wf_model — no collisions — holds for every model a history reaches) *)
 Theorem C15_reachable_models_wf : forall steps os,
   Forall (fun r => wf_model (m_nss (snd r))) (run_steps empty_model steps os).
 Proof. intros. apply run_steps_wf. exact wf_model_nil. Qed.
 Print Assumptions C15_reachable_models_wf.
 
-(* (6) the functions the harness evaluates flag the three witnesses and put them in their classes
-   (K3: update_data_model at run time answers Ok for a refused version) *)
-Theorem C15_spec_flags_witnesses :
-  spec_C15 w_case_k1 (run_C15 w_case_k1) = false /\ known_C15 w_case_k1 = [1; 2]%Z /\
-  spec_C15 w_case_k2 (run_C15 w_case_k2) = false /\ known_C15 w_case_k2 = [2]%Z /\
-  spec_C15 w_case_k3 (run_C15 w_case_k3) = false /\ known_C15 w_case_k3 = [2; 3]%Z.
-Proof. exact spec_witnesses. Qed.
-Print Assumptions C15_spec_flags_witnesses.
+(* the model part of the property, all together *)
+Theorem C15_full_partial : C15_full.
+Proof.
+  intros steps os1 os2. cbv zeta. split; [apply run_steps_addresses_kept; exact wf_model_nil|].
+  split; [apply ids_stable_all_histories|]. split; [apply run_steps_refused_unchanged | apply run_steps_outcome_det].
+Qed.
+Print Assumptions C15_full_partial.
 
-(* the hypotheses of the outside-known theorems are satisfiable: a five-step history (one field
-   per entity per version, a refused text in between, the last version applied twice) lies in no
-   class, both peers accept [v1; v3; -; v4; v4] and the oracle of spec_C15 holds on it *)
-Example C15_outside_known_nonvacuous :
-  known_C15 w_case_clean = [] /\ spec_C15 w_case_clean (run_C15 w_case_clean) = true /\
-  known_steps empty_model [mkS false w_v1; mkS false w_v3; mkS false w_bad; mkS false w_v4; mkS false w_v4] [] = (false, false) /\
-  map fst (run_steps empty_model [mkS false w_v1; mkS false w_v3; mkS false w_bad; mkS false w_v4; mkS false w_v4] []) = [None; None; Some EDupField; None; None].
-Proof. exact clean_witness. Qed.
-Print Assumptions C15_outside_known_nonvacuous.
+(* (6) regression examples: the witnesses that refuted (3), (4), (5) on the original tree.
+   K1: f3 and f2 added at once get the identifiers of their place in the text and the same text
+   again is accepted;  K2: a version valid for E1 and invalid for E2 is refused and nothing has
+   changed, whichever entity the hash map visits first *)
+Example C15_k1_regression :
+  let a := run_steps empty_model w_steps [] in
+  map fst a = [None; None; None] /\ map (fun r => field_ids (snd r)) a = [[(1, 32)]; [(1, 32); (3, 33); (2, 34)]; [(1, 32); (3, 33); (2, 34)]].
+Proof. exact k1_regression. Qed.
+Print Assumptions C15_k1_regression.
+
+Example C15_k2_regression :
+  let M := fst (upd zero_oracle false empty_model w_w1) in
+  snd (upd zero_oracle false empty_model w_w1) = None /\
+  upd (oracle_of w_e1_first) false M w_w2 = (M, Some EMissingField) /\
+  upd (oracle_of w_e2_first) false M w_w2 = (M, Some EMissingField).
+Proof. exact k2_regression. Qed.
+Print Assumptions C15_k2_regression.
+
+(* the functions the harness evaluates accept the three witnesses (K3: a refusal at run time is
+   reported to the caller: api results [Ok; Err; Ok]) *)
+Example C15_spec_accepts_witnesses :
+  spec_C15 w_case_k1 (run_C15 w_case_k1) = true /\ spec_C15 w_case_k2 (run_C15 w_case_k2) = true /\
+  spec_C15 w_case_k3 (run_C15 w_case_k3) = true /\
+  map fst (run_inst_obs empty_model false [(true, mkS false w_w1); (false, mkS false (mkV 2 [(2, [mkED 1 false true [fS 1] []])])); (true, mkS false w_w1)] []) = [true; false; true].
+Proof. exact spec_witnesses. Qed.
+Print Assumptions C15_spec_accepts_witnesses.
